@@ -226,6 +226,18 @@ def run(tier, seed, replay=None):
         pairs = [(payload["doc_a"], payload["doc_b"], "replay")]
     else:
         pairs = []
+        # subclasses that differ only through what they INHERIT (one keyword of the parent, one property of the parent)
+        def fam(parent_kw, parent_props):
+            return {"classes": {"P": {"k": "Obj", "name": "P", "base": None, "doc": None, "kw": parent_kw, "props": parent_props},
+                                "C": {"k": "Obj", "name": "C", "base": "P", "doc": None, "kw": {}, "props": {}}},
+                    "order": ["P", "C"], "root": {"k": "Ref", "name": "C"}}
+        name_p = {"name": {"e": {"k": "String", "kw": {}}, "required": False, "source": None}}
+        for kw in ({"additionalProperties": False}, {"maxProperties": 1}, {"required": ["name"]}, {"minProperties": 1},
+                   {"patternProperties": {"^x": {"k": "Integer", "kw": {}}}}, {"propertyNames": {"k": "String", "kw": {"maxLength": 3}}},
+                   {"default": {"name": "d"}}, {"const": {"name": "c"}}, {"description": "d"}):
+            pairs.append((fam({}, name_p), fam(kw, name_p), "inherited:" + next(iter(kw))))
+        pairs.append((fam({}, name_p), fam({}, {"name": {"e": {"k": "String", "kw": {}}, "required": True, "source": None}}), "inherited:prop_required"))
+        pairs.append((fam({}, name_p), fam({}, {"name": {"e": {"k": "Integer", "kw": {}}, "required": False, "source": None}}), "inherited:prop_class"))
         for _ in range(200 if tier == "quick" else 3000):
             doc = dslgen.gen_doc(rng, dslgen.Cfg(max_depth=rng.choice([1, 2, 2, 3])))
             pairs.append((doc, copy.deepcopy(doc), "copy"))
